@@ -315,6 +315,8 @@ type Out struct {
 	N       int      `json:"n,omitempty"`
 	Skipped bool     `json:"skipped,omitempty"` // op not applicable (e.g. writer slot empty)
 	Err0    error    `json:"-"`
+	// Held: what went wrong with a listing sequence kept from the operation before (Env.HoldListings)
+	Held string `json:"held,omitempty"`
 }
 
 // Code maps an error to the string used in Out.Err.
@@ -377,6 +379,9 @@ type Env struct {
 	// MaxList bounds how many items a listing consumer accepts before it
 	// declines (a hung or looping iterator must not hang the check).
 	MaxList int
+	// HoldListings: see Exec.
+	HoldListings bool
+	held         *held
 }
 
 // NewEnv returns a fresh environment.
@@ -424,8 +429,59 @@ func collect[T any](it ociregistry.Seq[T], max int, conv func(T) any, o *Out) []
 	return items
 }
 
-// Exec applies op and captures the outcome.
+// held is a listing sequence obtained after one operation and run again after the next.
+type held struct {
+	what  string
+	first string
+	run   func() string
+	fresh func() string
+}
+
+func runListing[T any](seq ociregistry.Seq[T]) string {
+	var items []string
+	n := 0
+	seq(func(x T, err error) bool {
+		if err != nil {
+			items = append(items, "error:"+Code(err))
+			return false
+		}
+		items = append(items, fmt.Sprint(x))
+		n++
+		return n < 10000
+	})
+	return fmt.Sprintf("%q", items)
+}
+
+// Exec applies op and captures the outcome. With HoldListings, a listing sequence obtained right after a
+// listing operation is run at once and once more after the following operation: what it yields then is
+// what it yielded before or what a listing asked for now yields (whether a sequence is a snapshot is the
+// registry's choice; anything else - an item lost, one twice, an order broken - is not a listing of any
+// state the registry was in).
 func (e *Env) Exec(op Op) (o Out) {
+	o = e.exec1(op)
+	if !e.HoldListings {
+		return o
+	}
+	if h := e.held; h != nil {
+		e.held = nil
+		if again, now := h.run(), h.fresh(); again != h.first && again != now {
+			o.Held = fmt.Sprintf("the sequence returned by %s yielded %s when run at once and %s when run again after %+v, when a new listing yields %s", h.what, h.first, again, op, now)
+		}
+	}
+	reg, ctx := e.Reg, e.Ctx
+	switch op.K {
+	case "repos":
+		seq := reg.Repositories(ctx, op.S)
+		e.held = &held{fmt.Sprintf("Repositories(%q)", op.S), runListing(seq), func() string { return runListing(seq) }, func() string { return runListing(reg.Repositories(ctx, op.S)) }}
+	case "tags":
+		repo := e.repo(op.R)
+		seq := reg.Tags(ctx, repo, op.S)
+		e.held = &held{fmt.Sprintf("Tags(%q, %q)", repo, op.S), runListing(seq), func() string { return runListing(seq) }, func() string { return runListing(reg.Tags(ctx, repo, op.S)) }}
+	}
+	return o
+}
+
+func (e *Env) exec1(op Op) (o Out) {
 	u, reg, ctx := e.U, e.Reg, e.Ctx
 	switch op.K {
 	case "pushBlob":
